@@ -6,6 +6,7 @@ import (
 	"fmt"
 
 	"github.com/DDP-Projekt/Kompilierer/src/ast"
+	"github.com/DDP-Projekt/Kompilierer/src/ddptypes"
 )
 
 // Observation points for the verification harness (build tag verif only).
@@ -43,9 +44,19 @@ func verifInstKey(decl *ast.FuncDecl) string {
 		if i > 0 {
 			key += ", "
 		}
-		key += param.Type.String()
+		key += verifTypeString(param.Type)
 	}
 	return key + ")"
+}
+
+// ParameterType.String panics for malformed types (e.g. a reference to nothing after an error): the observation must never add a crash
+func verifTypeString(t ddptypes.ParameterType) (s string) {
+	defer func() {
+		if recover() != nil {
+			s = "?"
+		}
+	}()
+	return t.String()
 }
 
 func verifInst(kind string, genericFunc *ast.FuncDecl, module *ast.Module, decl *ast.FuncDecl, nerr int) {
